@@ -12,8 +12,9 @@
 // strace syscall fault injection (ENOSPC on the n-th write to the .hyd, EIO on the n-th read
 // of a chunk file) or with the target directory on a read-only mount; for every swamp that
 // Run reports as failed the legacy folder must be byte-identical to its copy and no .hyd may
-// be left that loads to anything but the legacy state. Afterwards the fault is cleared, the
-// migration is run again and must yield the legacy state.
+// be left from which the V2 loader gets part of the data (an unloadable / empty stub is only
+// counted). Afterwards the fault is cleared, the migration is run again and must yield the
+// legacy state.
 package c23
 
 import (
